@@ -57,7 +57,7 @@ def generate(ctx, n, max_edits=2):
     toks = [tokenize(open(p, errors="surrogateescape").read()) for p, _, _ in files]
     ntok = [len([t for t in tk if not t.isspace()]) for tk in toks]
     cfgp = ctx.path("MC_Mutate_run.cfg")
-    open(cfgp, "w").write("SPECIFICATION Spec\nCONSTANTS MaxEdits = %d\nINVARIANT Emit\nCHECK_DEADLOCK FALSE\n" % max_edits)
+    open(cfgp, "w").write("SPECIFICATION Spec\nCONSTANTS MaxEdits = %d\n  Exhaustive = FALSE\nINVARIANT Emit\nCHECK_DEADLOCK FALSE\n" % max_edits)
     ntokp = ctx.path("mutate_ntok.json")
     open(ntokp, "w").write(json.dumps(ntok))
     workers = 4
@@ -76,4 +76,32 @@ def generate(ctx, n, max_edits=2):
         out.append((apply(toks[c["file"] - 1], c["edits"]), targ, mode, {"file": os.path.basename(p), "edits": c["edits"]}))
         if len(out) >= n:
             break
+    return out
+
+
+SEPARATORS = ["(", ")", "{", "}", "[", "]", ";", ",", "...", ":", "=", "*", "int", "x", "0", "static", "case", "else"]
+
+
+def neighbourhood(ctx, path, alpha=SEPARATORS):
+    """The whole one-edit neighbourhood of one file, enumerated by TLC (Mutate.tla, Exhaustive = TRUE, breadth first):
+    every edit kind at every token, replace/insert with every token of `alpha`.  -> list of (src_text, descr)."""
+    text = open(path, errors="surrogateescape").read()
+    toks = tokenize(text)
+    ntok = len([t for t in toks if not t.isspace()])
+    cfgp = ctx.path("MC_Mutate_exh.cfg")
+    open(cfgp, "w").write("SPECIFICATION Spec\nCONSTANTS MaxEdits = 1\n  Exhaustive = TRUE\nINVARIANT Emit\nCHECK_DEADLOCK FALSE\n")
+    ntokp, alphap = ctx.path("mutate_exh_ntok.json"), ctx.path("mutate_exh_alpha.json")
+    open(ntokp, "w").write(json.dumps([ntok]))
+    open(alphap, "w").write(json.dumps([ALPHA.index(a) + 1 for a in alpha]))
+    r = ctx.tlc("Mutate", cfgp, workers=4, env={"MUTATE_NTOK": ntokp, "MUTATE_NALPHA": str(len(ALPHA)), "MUTATE_EXH_ALPHA": alphap}, timeout=600)
+    if not r.ok:
+        raise vlib.MachineryError("Mutate.tla (exhaustive) failed: " + r.out[-2000:])
+    out, seen = [], set()
+    for v in r.vcases:
+        c = json.loads(v)
+        src = apply(toks, c["edits"])
+        if src in seen or src == text:
+            continue
+        seen.add(src)
+        out.append((src, {"file": os.path.basename(path), "edits": c["edits"]}))
     return out
